@@ -369,6 +369,14 @@ func Eq(a, b *Term) *Term {
 	if a.IsConst() && b.Op == "ite" {
 		return Eq(b, a)
 	}
+	if a.Sort.K == KBV {
+		if ia, ib, ok := lenCmp(a, b, true); ok {
+			return Eq(ia, ib)
+		}
+	}
+	if a.Sort.K == KInt && a.IsConst() && a.Val.Sign() < 0 && isLenInt(b) || a.Sort.K == KInt && b.IsConst() && b.Val.Sign() < 0 && isLenInt(a) {
+		return False
+	}
 	if a.ID > b.ID {
 		a, b = b, a
 	}
@@ -404,6 +412,11 @@ func BVAdd(a, b *Term) *Term {
 	}
 	if isZero(b) {
 		return a
+	}
+	if la, ok := lenView(a); ok {
+		if lb, ok := lenView(b); ok {
+			return Int2BV(a.Sort.W, IntAdd(la, lb))
+		}
 	}
 	return bvBin("bvadd", a, b, func(x, y *big.Int, w int) *big.Int { return new(big.Int).Add(x, y) })
 }
@@ -520,7 +533,67 @@ func BVNeg(a *Term) *Term {
 	return mk(&Term{Op: "bvneg", Sort: a.Sort, Args: []*Term{a}})
 }
 
+// isLenInt: an Int term known to be a small non-negative number (string lengths and sums of them).
+// Comparisons of int2bv(lenInt) are moved to the Int theory, which avoids the expensive
+// int<->bit-vector bridge; assumes string lengths stay below 2^62 (stated in the evidence).
+func isLenInt(t *Term) bool {
+	switch t.Op {
+	case "str.len":
+		return true
+	case "const":
+		return t.Sort.K == KInt && t.Val.Sign() >= 0 && t.Val.BitLen() < 62
+	case "+":
+		return isLenInt(t.Args[0]) && isLenInt(t.Args[1])
+	}
+	return false
+}
+
+// lenView returns the Int view of a BV term when it is int2bv(lenInt) or a small non-negative constant.
+func lenView(t *Term) (*Term, bool) {
+	if t.Op == "int2bv" && isLenInt(t.Args[0]) {
+		return t.Args[0], true
+	}
+	return nil, false
+}
+
+func constAsInt(t *Term, signed bool) (*Term, bool) {
+	if !t.IsConst() || t.Sort.K != KBV {
+		return nil, false
+	}
+	v := t.Val
+	if signed {
+		v = toSigned(t.Val, t.Sort.W)
+	}
+	return mk(&Term{Op: "const", Sort: Int, Val: new(big.Int).Set(v)}), true
+}
+
+// lenCmp tries to express a comparison between BV terms in Int when one side is a length.
+func lenCmp(a, b *Term, signed bool) (ia, ib *Term, ok bool) {
+	la, oka := lenView(a)
+	lb, okb := lenView(b)
+	switch {
+	case oka && okb:
+		return la, lb, true
+	case oka:
+		if c, ok := constAsInt(b, signed); ok {
+			return la, c, true
+		}
+	case okb:
+		if c, ok := constAsInt(a, signed); ok {
+			return c, lb, true
+		}
+	}
+	return nil, nil, false
+}
+
 func bvCmp(op string, a, b *Term, f func(x, y *big.Int, w int) bool) *Term {
+	if ia, ib, ok := lenCmp(a, b, op == "bvslt" || op == "bvsle"); ok {
+		// unsigned view of a negative constant is huge: lengths are always below it
+		if op == "bvult" || op == "bvslt" {
+			return IntLt(ia, ib)
+		}
+		return IntLe(ia, ib)
+	}
 	if a.Sort != b.Sort || a.Sort.K != KBV {
 		panic(fmt.Sprintf("smt: %s sort mismatch %v vs %v", op, a.Sort, b.Sort))
 	}
